@@ -180,22 +180,35 @@ def prepopulate(directory: str, model: str, kind: str, seed: int, i: int, exts=R
     """Earlier output in the directory. Pickle files are genuine pickles of
     *other* raw results (so that a stale read is visible); the rest is text
     with a unique marker. Returns {file name: version}."""
-    import biogeme.results as res  # noqa: F401  (RawResults must be importable for pickling)
+    import biogeme.results as res
+
+    import copy
 
     made = {}
     versions = prepop_versions(kind)
     stems = [model] + list(stem_extra or [])
+    base = None
     for stem in stems:
         for ext in exts:
-            for v in versions:
+            vs = versions
+            if kind == 'many_120' and ext not in ('pickle', 'html'):
+                vs = prepop_versions('run_0_5')  # 120 versions only where they matter (keeps the snapshots cheap)
+            for v in vs:
                 fn = version_name(stem, ext, v)
                 path = os.path.join(directory, fn)
                 if ext == 'pickle' and stem == model:
-                    raw = make_raw(seed, 100000 + 131 * i + v + 2, tag='old', force={'model_name': model, 'regular': True})
-                    r = build_results(raw)
-                    r.data.pickleFileName = fn
+                    # a genuine pickle of OTHER results: one real RawResults per directory, estimates shifted per version
+                    if base is None:
+                        raw = make_raw(seed, 100000 + 131 * i, tag='old', force={'model_name': model, 'regular': True})
+                        base = build_results(raw)
+                    d = copy.copy(base.data)
+                    shift = float(v + 2)
+                    d.betaValues = [float(b) + shift for b in base.data.betaValues]
+                    d.betas = [res.Beta(b.name, float(b.value) + shift, (b.lb, b.ub)) for b in base.data.betas]
+                    d.logLike = float(base.data.logLike) - shift
+                    d.pickleFileName = fn
                     with open(path, 'wb') as f:
-                        pickle.dump(r.data, f)
+                        pickle.dump(d, f)
                 else:
                     with open(path, 'w') as f:
                         f.write(f'EARLIER OUTPUT {fn} seed={seed} case={i}\n')
